@@ -75,12 +75,11 @@ let () =
                (* write_pmf at temperature T: one value per bin, in the order of the array *)
                let temp = nf () in
                let idx = all_indices (List.map (fun bd -> int_of_z bd.b_nx) (!st).st_geom) in
-               (* pmf_value recomputes the maximum over the grid for every bin: tabulate the energy grid first (same values) *)
-               let tbl = Hashtbl.create 1024 in
-               let e0 = (!st).st_e in
-               let memo ix = match Hashtbl.find_opt tbl ix with Some v -> v | None -> let v = e0 ix in Hashtbl.add tbl ix v; v in
-               let sm = { !st with st_e = memo } in
-               outs := ("P " ^ String.concat " " (List.map (fun ix -> hex (pmf_value fops !c sm temp (List.map z_of_int ix))) idx)) :: !outs
+               (* pmf_value c s T ix = pmf_shift c T (grid_max (st_e s) (all_ix sizes)) (st_e s ix) by definition: the maximum
+                  is computed once here instead of once per bin *)
+               let s0 = !st in
+               let mx = grid_max fops s0.st_e (all_ix (List.map (fun bd -> bd.b_nx) s0.st_geom)) in
+               outs := ("P " ^ String.concat " " (List.map (fun ix -> hex (pmf_shift fops !c temp mx (s0.st_e (List.map z_of_int ix)))) idx)) :: !outs
              | "R" -> st := restart_state fops !c !st None
              | "L" -> st := reload_state fops !c !st
              | "C" ->
